@@ -859,6 +859,57 @@ def enum_zones(ctx):
         yield {"kind": "time", "text": "12:00:00@%s" % name, "src": "zones"}
 
 
+# ---- zone twins: the instant a zoned literal denotes, written three ways ---------------------------------------------------------
+
+def dt_text(t, off):
+    y, m, d, h, mi, sec, _ = cal.fields_from_instant(t * cal.NS, off)
+    return "%sT%02d:%02d:%02d" % (cal.fmt_date(y, m, d), h, mi, sec)
+
+
+def gen_twins(src):
+    """a date and time in a named zone (far from and within hours of a switch, never an ambiguous or skipped local time), the same
+    instant in UTC and with the numeric offset: as literals they denote one instant, so they are equal in both operand orders, neither
+    is before the other and their difference is zero"""
+    if src.bool(0.6):
+        name = src.choice(zones.NEAR_ZONES)
+        t = zones.near_switch_instant(src, name)
+        cls = "near-switch"
+    else:
+        name = src.choice(zones.CURATED)          # zones whose 1980-2020 rules are the same in the SUT's and the system's zone data
+        t = zones.stable_instant(name, zones.T_1980 + src.int(0, 14600) * 86400 + src.int(0, 86399))
+        cls = "stable"
+    off = zones.offset_at(name, t)
+    return {"zoned": dt_text(t, off) + "@" + name, "utc": dt_text(t, 0) + "Z", "offset": dt_text(t, off) + cal.fmt_offset(off), "cls": cls,
+            "other": dt_text(t + src.choice([1, 60, 3600, -1, -3600]), 0) + "Z"}
+
+
+def reqs_twins(case):
+    return [{"op": "eval", "text": '{v: date and time("%s"), z: date and time("%s"), o: date and time("%s"), x: date and time("%s"), '
+                                   'r: [v = z, z = v, v = o, o = v, v < z, z < v, v <= z, z >= v, string(v - z), string(z - v), v = x, x = v]}.r'
+                                   % (case["zoned"], case["utc"], case["offset"], case["other"])}]
+
+
+TWIN_EXPECT = [True, True, True, True, False, False, True, True, {"s": "PT0S"}, {"s": "PT0S"}, False, False]
+TWIN_WHAT = ["v = z", "z = v", "v = o", "o = v", "v < z", "z < v", "v <= z", "z >= v", "string(v - z)", "string(z - v)", "v = x", "x = v"]
+
+
+def judge_twins(ctx, case, resp):
+    items, problem, panic = eval_items(resp[0])
+    ctx.note(key=[case["zoned"], case["other"]], nontrivial=case["cls"] == "near-switch", labels=["twins", "twins:" + case["cls"]],
+             sample={"zoned": case["zoned"], "utc": case["utc"], "offset": case["offset"], "answers": items})
+    if panic:
+        return panic_fail(panic, case["zoned"])
+    if items is None:
+        return Fail("C14/no-result", "%s: %s" % (case["zoned"], problem))
+    bad = [(w, e, g) for w, e, g in zip(TWIN_WHAT, TWIN_EXPECT, items) if g != e]
+    if bad:
+        return Fail("C14/zoned-literal-is-not-the-instant-it-denotes",
+                    'v = date and time("%s"), z = date and time("%s"), o = date and time("%s"), x = date and time("%s") denote: v, z, o one instant, '
+                    "x another one; but %s" % (case["zoned"], case["utc"], case["offset"], case["other"],
+                                               "; ".join("%s is %r (expected %r)" % (w, g, e) for w, e, g in bad)))
+    return None
+
+
 GRID_YEARS = [2020, 2021, 1900, 2000, 2100, 2400, 1000, 9999, 4, 100, 400, 999, -1, -4, -100, -400, 10000, 262143, 262144,
               999999996, 999999900, 999999999, -999999999, -999999996]
 
@@ -1010,6 +1061,7 @@ def setup(ctx):
     ctx.p_corrupt = ctx.register(Part("corruptions", None, reqs_literal, judge_literal))
     ctx.p_lit = ctx.register(Part("literal", gen_literal, reqs_literal, judge_literal))
     ctx.p_val = ctx.register(Part("value", gen_value, reqs_value, judge_value))
+    ctx.p_twins = ctx.register(Part("zone-twins", gen_twins, reqs_twins, judge_twins))
 
 
 def run(ctx):
@@ -1025,6 +1077,7 @@ def run(ctx):
     ctx.enumerate(ctx.p_corrupt, enum_corruptions(ctx), name="single-character corruptions of valid literals", exhaustive=ctx.thorough())
     ctx.forall(ctx.p_lit, ctx.scale(40000, 6400000))
     ctx.forall(ctx.p_val, ctx.scale(20000, 3200000))
+    ctx.forall(ctx.p_twins, ctx.scale(8000, 600000))
 
 
 if __name__ == "__main__":
